@@ -164,7 +164,14 @@ func (m *machA) verdict() bool {
 		return false
 	}
 	s := m.n.Pool.VerifSnapshot()
-	if f := checkPool(m.n.Pool, s, m.feeOf, m.lookup); f != nil {
+	f, soft := checkPoolSoft(m.n.Pool, s, m.feeOf, m.lookup)
+	for _, sf := range soft {
+		if !vk.Report(m.t, "C34:"+sf.sig, sf.detail, m.render()) {
+			m.dead = true
+			return false
+		}
+	}
+	if f != nil {
 		m.dead = true
 		vk.Report(m.t, "C34:"+f.sig+":"+m.op, f.detail, m.render())
 		return false
